@@ -101,7 +101,8 @@ META.update({
                 text="Theorems missing_exact (missing variables = names mentioned and not defined, sorted), split_glue (a solution of the full model is a solution of every restriction fed "
                      "with its values for states, parameters and missing variables), states_partition, missing_values_sound, pin c_missing_index_name. Real code: every component as the split, "
                      "missing variables compared with the model's, sub / rest modules fed from the full model, monitors / rhs / Euler / missing_values compared by name. "
-                     "GenValidMissing.genMissing_valid / genMissing_correct: the model's missing_values generator (with the early exit 'if n >= N: break') writes every requested value into its slot "
+                     "SplitEndToEnd.restrict_wf / split_rhs_correct / split_missing_correct: a closed restriction of a well-formed model is well formed, and its generated rhs / missing_values programs, fed with the "
+                     "values a solution of the full model gives to the part's inputs, return the full model's values. GenValidMissing.genMissing_valid / genMissing_correct: the model's missing_values generator (with the early exit 'if n >= N: break') writes every requested value into its slot "
                      "exactly once, for every well-formed model and every list of distinct requested names it defines; every real missing_values program is translated, validated by "
                      "checkMissingValues and compared statement by statement with the model generator's program for the same split.",
                 note=TB),
